@@ -61,3 +61,67 @@ Lemma complexity_rep mn mx g r : complexity (RRep mn mx g r) = mn * complexity r
 Proof. reflexivity. Qed.
 Lemma complexity_look : complexity RLook = 0.
 Proof. reflexivity. Qed.
+
+(* ---------- the saturating arithmetic of Pattern::complexity (finding F11) ---------- *)
+Lemma sat_le x : sat x <= usize_max.
+Proof. unfold sat. lia. Qed.
+Lemma sat_small x : x <= usize_max -> sat x = x.
+Proof. unfold sat. lia. Qed.
+Lemma sat_add_sat a b : sat (sat a + sat b) = sat (a + b).
+Proof. unfold sat. lia. Qed.
+Lemma sat_add_sat_l a b : sat (sat a + b) = sat (a + b).
+Proof. unfold sat. lia. Qed.
+Lemma sat_mul_sat m c : sat (m * sat c) = sat (m * c).
+Proof.
+  unfold sat. destruct (N.le_gt_cases c usize_max) as [H|H].
+  - rewrite (N.min_l c usize_max H). reflexivity.
+  - rewrite (N.min_r c usize_max) by lia.
+    destruct (N.eq_dec m 0) as [->|Hm]; [reflexivity|].
+    rewrite (N.min_r (m * usize_max)) by nia. rewrite (N.min_r (m * c)) by nia. reflexivity.
+Qed.
+Lemma sat_min a b : N.min (sat a) (sat b) = sat (N.min a b).
+Proof. unfold sat. lia. Qed.
+
+Lemma list_min_map_sat (l : list N) : list_min (map sat l) = option_map sat (list_min l).
+Proof.
+  induction l as [|x r IH]; [reflexivity|]. cbn [map list_min]. rewrite IH.
+  destruct (list_min r) as [m|]; cbn [option_map]; [rewrite sat_min|]; reflexivity.
+Qed.
+
+(* the code's value is the documented value, cut off at usize::MAX *)
+Theorem complexity_sat_spec : forall r, lits_small r = true -> complexity_sat r = sat (complexity r).
+Proof.
+  fix IH 1. intros r H. destruct r as [|bs|rs|rs| |mn mx g s|s|rs|rs]; cbn [complexity_sat complexity lits_small] in *.
+  - reflexivity.
+  - symmetry. apply sat_small. apply N.leb_le. exact H.
+  - reflexivity.
+  - reflexivity.
+  - reflexivity.
+  - rewrite (IH s H). apply sat_mul_sat.
+  - exact (IH s H).
+  - (* concatenation: left fold with saturation = saturated sum *)
+    assert (G : forall a, fold_left (fun acc x => sat (acc + complexity_sat x)) rs (sat a)
+                          = sat (a + fold_right (fun x acc => complexity x + acc) 0 rs)).
+    { induction rs as [|x rs IHrs]; intros a; cbn [fold_left fold_right].
+      - f_equal. lia.
+      - cbn [forallb] in H. apply andb_prop in H as [Hx Hrs].
+        rewrite (IH x Hx). rewrite sat_add_sat. rewrite (IHrs Hrs). f_equal. lia. }
+    exact (G 0).
+  - (* alternation *)
+    assert (G : map complexity_sat rs = map sat (map complexity rs)).
+    { induction rs as [|x rs IHrs]; [reflexivity|]. cbn [forallb] in H. apply andb_prop in H as [Hx Hrs].
+      cbn [map]. rewrite (IH x Hx), (IHrs Hrs). reflexivity. }
+    rewrite G, list_min_map_sat. destruct (list_min (map complexity rs)); reflexivity.
+Qed.
+
+Corollary complexity_sat_fits r : lits_small r = true -> complexity_sat r <= usize_max.
+Proof. intros H. rewrite (complexity_sat_spec r H). apply sat_le. Qed.
+
+(* below the cut-off the two agree: every pattern whose default priority matters *)
+Corollary complexity_sat_exact r : lits_small r = true -> complexity r <= usize_max -> complexity_sat r = complexity r.
+Proof. intros H Hle. rewrite (complexity_sat_spec r H). apply sat_small. exact Hle. Qed.
+
+(* regression: the arithmetic as it was overflows on a doubly counted repetition, (a{4294967295}){4294967295} *)
+Definition f11_witness : re := RRep 4294967295 (Some 4294967295) true (RCap (RRep 4294967295 (Some 4294967295) true (RLit [97]))).
+Lemma old_complexity_overflows : complexity_checked f11_witness = None /\ complexity_sat f11_witness = usize_max.
+Proof. split; vm_compute; reflexivity. Qed.
